@@ -18,6 +18,7 @@ pub mod c14;
 pub mod c15;
 pub mod c16;
 pub mod c17;
+pub mod c18;
 
 pub fn run(prop: &str, cfg: &Cfg, rep: &mut Report) -> bool {
     match prop {
@@ -38,6 +39,7 @@ pub fn run(prop: &str, cfg: &Cfg, rep: &mut Report) -> bool {
         "C15" => c15::run(cfg, rep),
         "C16" => c16::run(cfg, rep),
         "C17" => c17::run(cfg, rep),
+        "C18" => c18::run(cfg, rep),
         _ => return false,
     }
     true
